@@ -316,12 +316,27 @@ def drape_cells(prisms, layers):
     return out
 
 
-def cell_feature(views):
-    """Stable description of the input list for cell clauses (part of the signature)."""
-    for v in views[:-1]:
-        if v.get("cells") is not None and len(v["cells"]) and int(np.max(v["cells"])) < len(v["vertices"]) - 1:
-            return "a non-final input's last vertex is in no cell"
-    return "every non-final input's last vertex is in a cell"
+KNOWN_OFFSET = "a non-final input's last vertex is in no cell"
+
+
+def cell_witness(views, merged_cells):
+    """Witness of a failing cell clause.  The unchanged library is known (and fixed by its
+    own test tests/merger_surface_test.py) to shift every input's cells by the running
+    'largest index so far + 1' instead of the running vertex count.  Merged cells that are
+    exactly that second reference get the recorded signature of that defect; anything else -
+    cells that agree with neither the correct nor the known defective offset - gets another
+    witness, so the recorded finding cannot hide a different cell defect."""
+    ref, previous = [], 0
+    for v in views:
+        if v.get("cells") is None or not len(v["cells"]):
+            return "cells differ from the vertex-count offset and from the known max-index offset"
+        shifted = np.asarray(v["cells"], dtype=np.int64) + previous
+        ref.append(shifted)
+        previous = int(shifted.max()) + 1
+    ref = np.vstack(ref)
+    if merged_cells is not None and np.asarray(merged_cells).shape == ref.shape and np.array_equal(merged_cells, ref):
+        return KNOWN_OFFSET
+    return "cells differ from the vertex-count offset and from the known max-index offset"
 
 
 CLASH = "one name carries a float type on one input and an integer type on another"
@@ -421,7 +436,7 @@ def judge(cls, views, merged):
                                         "input_connects": want, "merged_connects": gotc})
             if bad:
                 out.append(
-                    ("cells-connect-same-coordinates", f"{fam}: {cell_feature(views)}", {"n_bad": len(bad), "first": bad[:3]})
+                    ("cells-connect-same-coordinates", f"{fam}: {cell_witness(views, mc)}", {"n_bad": len(bad), "first": bad[:3]})
                 )
 
     # ---- data -------------------------------------------------------------
